@@ -218,6 +218,11 @@ def run(ck):
     # "exactly once, in order, attributed to the pipe it was sent to": nothing but the caller's payload is in the TX FIFO when send() starts
     # (left-over ACK payloads are flushed on TX entry) and pipe 0 returns to the reading address after a transmission (R08.x, shared with C08)
     c08.run_for(ck, radio, agg)
+    # "for all six receiving pipes": the pipe a payload is attributed to is decoded by the status accessors (R10.1, shared with C10), and
+    # the static payload widths / addresses of every pipe are what `with` re-programs from the cached copies (R09.1/R09.2, shared with C09)
+    c10.run_for(ck, radio, agg)
+    from . import c09
+    c09.check_enter(radio, agg, radio.cls, ck.prog.method(radio.cls, "__enter__"), radio.ref, c09.havoc_regs(radio, radio.fresh()), "RF24.__enter__", ck.prog.method(radio.cls, "__enter__"))
     # the sibling driver rf24_lite.RF24 implements the same write()/send()/read()/any() contract (C20 judges it in full); the payload path
     # rules are applied to it here as well, so that a change to either driver's payload path is reported under C01 itself
     lite = Radio(ck, "rf24_lite", "RF24")
